@@ -97,6 +97,22 @@ class C04Hook:
         self.parser = Parser(w.mdib)
         self.seq = {}
         self.last_versions = []
+        # (c) retained copies: a real PeriodicReportsHandler (thread not started) receives the states of every commit;
+        # the application keeps writing into the objects it was handed (late writes)
+        from sdc11073.provider.periodicreports import PeriodicReportsHandler
+        self.periodic = PeriodicReportsHandler(w.mdib, w.p.device.hosted_services, None)
+        w.p.device._periodic_reports_handler = self.periodic  # noqa: SLF001
+        self.retained = []
+        orig = self.periodic._store_for_periodic_report  # noqa: SLF001
+        hook = self
+
+        def store(mdib_version, state_updates, destination_list):
+            orig(mdib_version, state_updates, destination_list)
+            entry = destination_list[-1]
+            hook.retained.append((entry, [lb.canon_value(s) for s in entry.states]))
+        self.periodic._store_for_periodic_report = store  # noqa: SLF001
+        w.late_writes = True
+        w.scribble_results = False
 
     def before(self, w, script):
         self.before_snap = c02.norm_snap(lb.snapshot(w.mdib))
@@ -131,6 +147,15 @@ class C04Hook:
         case = {'history': list(history), 'mdib': w.mdib_path}
         wire = w.p.take_wire()
         ctx.count('outcome:' + info['outcome'])
+        for entry, canon in self.retained[-30:]:
+            now = [lb.canon_value(s) for s in entry.states]
+            if now != canon:
+                bad = [s.DescriptorHandle for s, a, b in zip(entry.states, now, canon) if a != b]
+                ctx.fail('retained-copy-changed', f'periodic store entry labelled version {entry.mdib_version}: states {bad} no longer show the published values', case)
+                break
+        ctx.count('retained-entries-checked', min(30, len(self.retained)))
+        if len(self.retained) > 400:
+            del self.retained[:200]
         for e in w.p.capture_errors:
             ctx.fail('report-not-schema-valid-or-not-serialisable', e[:300], case)
         w.p.capture_errors.clear()
